@@ -26,6 +26,8 @@ DOC = {
         "the equal-area penalty term against its documented formula."
     ),
     "rules": {
+        "C02-R7": "constructors of the data/matrix/estimation providers read no parameter-valued attribute (dataset scale, megacomplex parameters, group parameters): such values change on every evaluation and are read where they are used",
+        "C02-R6": "the data provider works on its own copy of the data and weights: in-place weighting never reaches the caller's arrays, so a dataset used twice is weighted once each time (shared with C10-R3)",
         "C02-R1": "calculate_penalty evaluates and concatenates every optimisation group once; get_full_penalty ranges over all dataset models / all aligned indices (no slice, no filter besides the global-model dispatch) and appends the clp penalties once, after the residuals; estimate() visits every dataset / index",
         "C02-R2": "stages in order, each once: megacomplex scale (in calculate_dataset_matrix) -> dataset scale (create_scaled_matrix / align_matrices on every return path) -> relations -> constraints -> weight; data is multiplied by the weight exactly once (DataProvider.__init__)",
         "C02-R3": "inside every per-index loop each per-index accessor is called with exactly the loop position and each interval test receives the axis value",
@@ -452,9 +454,21 @@ def r4(ctx) -> None:
     layout(ctx, rule="C02-R4", full_model_only=True)
 
 
+def r6(ctx) -> None:
+    """The provider weights a private copy of the data exactly once (ownership analysis shared with C10-R3, data provider only)."""
+    from glint.rules.c10 import r3 as ownership
+
+    ownership(ctx, rule="C02-R6", scope=("glotaran/optimization/data_provider.py",), floors=False)
+
+
+def r7(ctx) -> None:
+    """Nothing that depends on parameter values is captured when the providers are constructed."""
+    lib.check_no_parameter_state_in_constructors(ctx, "C02-R7")
+
+
 def check(ctx) -> None:
     for g in check.groups:
         g(ctx)
 
 
-check.groups = [r1, r2, r3, r4, r5]
+check.groups = [r1, r2, r3, r4, r5, r6, r7]
